@@ -1,6 +1,6 @@
 //! C11: aggregations (AggValidBasic / AggBasic of tea-core/src/agg.rs, AggValidExt of tea-agg)
 //!
-//! request: `agg_<method> t=<elem type> src=<own|titer|opt> [mp=k] [v=x] [ps=seed] xs=.. [ys=..] [ms=..]`
+//! request: `agg_<method> t=<elem type> src=<own|titer|opt|lazy> [mp=k] [v=x] [ps=seed] xs=.. [ys=..] [ms=..]`
 //! `ps` (only for the symmetric aggregations): the implementation side shuffles the input with
 //! SplitMix64(ps) before calling the real code; the Lean side ignores `ps`, so agreement IS
 //! permutation invariance of the real code.
@@ -202,6 +202,8 @@ macro_rules! with_src {
         match $r.s("src") {
             "own" => { let $it = $v.clone(); $body },
             "opt" => { let __o = $v.opt(); let $it = &__o; $body },
+            // an iterator whose size hint is not exact (lower bound 0): the aggregations may not rely on it
+            "lazy" => { let $it = $v.clone().into_iter().filter(|_| true); $body },
             _ => { let $it = $v.titer(); $body },
         }
     };
@@ -274,6 +276,7 @@ pub fn run(r: &Req) -> Option<String> {
             match r.s("src") {
                 "own" => valid2(m, r, a.clone(), b.clone()),
                 "opt" => { let (oa, ob) = (a.opt(), b.opt()); valid2(m, r, &oa, &ob) },
+                "lazy" => valid2(m, r, a.clone().into_iter().filter(|_| true), b.clone().into_iter().filter(|_| true)),
                 _ => valid2(m, r, a.titer(), b.titer()),
             }
         }));
@@ -337,7 +340,7 @@ pub fn valid_case(r: &Req) -> bool {
     if plain && (!matches!(t, "f64" | "f32" | "i32" | "bool") || src == "opt") {
         return false;
     }
-    if !matches!(src, "own" | "titer" | "opt") {
+    if !matches!(src, "own" | "titer" | "opt" | "lazy") || (plain && src == "lazy") {
         return false;
     }
     // nulls need a null-capable element type; the plain family is specified on null-free input
@@ -391,7 +394,7 @@ pub fn valid_case(r: &Req) -> bool {
 const T_NULL: &[&str] = &["f64", "of64", "oi32", "f32"];
 const T_ANY: &[&str] = &["f64", "of64", "i32", "oi32", "f32"];
 const T_PLAIN: &[&str] = &["f64", "i32", "f32"];
-const SRC: &[&str] = &["own", "titer", "opt"];
+const SRC: &[&str] = &["own", "titer", "opt", "lazy"];
 
 fn types_for(xs: &[String]) -> &'static [&'static str] {
     if xs.iter().any(|x| x == "_") { T_NULL } else { T_ANY }
@@ -407,7 +410,7 @@ impl Emit {
         choices[(self.k / 3) % choices.len()]
     }
     fn src(&mut self, plain: bool) -> &'static str {
-        if plain { SRC[self.k % 2] } else { SRC[self.k % 3] }
+        if plain { SRC[self.k % 2] } else { SRC[self.k % 4] }
     }
     /// all requests about one numeric series (types / sources rotated)
     fn one_series(&mut self, xs: &[String], pss: &[u64], int_only: bool) {
@@ -645,6 +648,6 @@ pub fn generate(tier: &str, rng: &mut Rng) -> (Vec<String>, bool) {
 
 pub fn rule(tier: &str) -> String {
     let th = tier == "thorough";
-    format!("every method of AggValidBasic (20 incl. deprecated count), AggBasic (12) and AggValidExt (n_vsum_filter, n_sum_filter, vmean_filter, vkurt) called on the real code; the extrema, arg-extrema, first / last and the counts also on every series over {{null,-inf,3,+inf}} up to length 4 (thorough 5) containing an infinity, float encodings (the model reads +-inf as +-2^1100: these functions only compare and count); exhaustive stream: every series over {{null,-1,0,2}} up to length {} (hence every permutation, ties, constant, all-null, empty, singleton) x every min_periods 0..=len+1 x every present/absent/null match value; boolean series over {{null,0,1}} to length {}; every PAIR of series over {{null,-1,0,2}} to length {} x every min_periods; every (series, mask over {{null,0,1}}) to length {}; element types rotated over f64,f32,i32,Option<f64>,Option<i32>,bool,Option<bool>, sources over owned Vec / borrowed titer() / opt() view; random stream: lengths to {}, dyadic values k/8 |k|<=64 or integers |k|<=20, 9 null patterns, each case repeated under 5 random shuffles applied on the implementation side only (symmetric aggregations). non-trivial = distinct request with >= 2 input elements and >= 1 non-null output token.",
+    format!("every method of AggValidBasic (20 incl. deprecated count), AggBasic (12) and AggValidExt (n_vsum_filter, n_sum_filter, vmean_filter, vkurt) called on the real code; the extrema, arg-extrema, first / last and the counts also on every series over {{null,-inf,3,+inf}} up to length 4 (thorough 5) containing an infinity, float encodings (the model reads +-inf as +-2^1100: these functions only compare and count); exhaustive stream: every series over {{null,-1,0,2}} up to length {} (hence every permutation, ties, constant, all-null, empty, singleton) x every min_periods 0..=len+1 x every present/absent/null match value; boolean series over {{null,0,1}} to length {}; every PAIR of series over {{null,-1,0,2}} to length {} x every min_periods; every (series, mask over {{null,0,1}}) to length {}; element types rotated over f64,f32,i32,Option<f64>,Option<i32>,bool,Option<bool>, sources over owned Vec / borrowed titer() / opt() view / a filtered iterator whose size hint has lower bound 0; random stream: lengths to {}, dyadic values k/8 |k|<=64 or integers |k|<=20, 9 null patterns, each case repeated under 5 random shuffles applied on the implementation side only (symmetric aggregations). non-trivial = distinct request with >= 2 input elements and >= 1 non-null output token.",
         if th { 6 } else { 5 }, if th { 8 } else { 6 }, if th { 4 } else { 3 }, if th { 4 } else { 3 }, if th { 200 } else { 60 })
 }
